@@ -371,6 +371,28 @@ pub fn c13_cases(quick: bool) -> Vec<SCase> {
             }
         }
     }
+    // an arm body that READS the pattern's variable with a committing goal (nested matcha / matchu
+    // on it, onceo over alternatives for it): the pattern has to be unified before the body runs,
+    // with one arm as with several, whatever the match kind
+    {
+        let subj_vals: Vec<T> = vec![T::list(vec![T::I(2), T::I(3)]), T::list(vec![T::I(1), T::I(3)]), T::list(vec![T::list(vec![T::I(1)]), T::I(3)])];
+        for kind in kinds {
+            for inner in [MatchKind::Matcha, MatchKind::Matchu] {
+                for sv in &subj_vals {
+                    let nested = G::Match(inner, x.clone(), vec![(vec![T::I(1)], vec![G::Eq(r(), T::I(10))]), (vec![T::W], vec![G::Eq(r(), T::I(20))])]);
+                    let once = G::Onceo(vec![G::Conde(vec![vec![G::Eq(x.clone(), T::I(1))], vec![G::Eq(x.clone(), T::I(2))]])]);
+                    for body in [vec![nested.clone()], vec![once.clone(), G::Eq(r(), x.clone())], vec![G::Eq(r(), x.clone()), once.clone()]] {
+                        let one = G::Match(kind, q(), vec![(vec![T::cons(x.clone(), T::W)], body.clone())]);
+                        let two = G::Match(kind, q(), vec![(vec![T::Nil], vec![G::Eq(r(), T::I(0))]), (vec![T::cons(x.clone(), T::W)], body.clone())]);
+                        for m in [one, two] {
+                            out.push(SCase { program: Program { nq: 2, body: vec![G::Eq(q(), sv.clone()), m.clone()] }, as_query: false, take: 50, ordered: false, twin_of: None, underscore: 0 });
+                            out.push(SCase { program: Program { nq: 2, body: vec![m, G::Eq(q(), sv.clone())] }, as_query: false, take: 50, ordered: false, twin_of: None, underscore: 0 });
+                        }
+                    }
+                }
+            }
+        }
+    }
     // two or three arms with alternatives: all four kinds on the same arms
     let list_pats: Vec<T> = pats.iter().filter(|p| !compound_pat(p)).cloned().collect();
     let n = list_pats.len();
@@ -479,6 +501,18 @@ pub fn c14_cases(quick: bool) -> Vec<SCase> {
             push(&mut out, vec![G::Call("same".into(), vec![q(), t.clone()])], 2, 50, false);
             push(&mut out, vec![G::Call("pairo".into(), vec![t.clone(), r(), q()])], 2, 50, false);
         }
+    }
+    // (1b) one argument term used by two goals of the callee: a `_` written as an argument is ONE
+    // variable inside the relation, whichever position it is written in
+    for t in &terms {
+        if matches!(t, T::Cmp(_, _)) {
+            continue;
+        }
+        push(&mut out, vec![G::Call("botho".into(), vec![t.clone(), q(), r()])], 2, 50, false);
+        push(&mut out, vec![G::Call("botho".into(), vec![q(), t.clone(), r()])], 2, 50, false);
+        push(&mut out, vec![G::Call("botho".into(), vec![t.clone(), T::I(7), q()]), G::Eq(r(), T::I(1))], 2, 50, false);
+        push(&mut out, vec![G::Call("botho".into(), vec![t.clone(), T::I(1), T::I(2)])], 2, 50, false);
+        push(&mut out, vec![G::Call("botho".into(), vec![t.clone(), T::list(vec![q(), T::I(1)]), T::list(vec![T::I(2), r()])])], 2, 50, false);
     }
     // (2) clause forms over a small alphabet of leaves
     let leaves: Vec<G> = vec![
